@@ -9,4 +9,5 @@ import (
 	_ "verif/checks/c08"
 	_ "verif/checks/c09"
 	_ "verif/checks/c11"
+	_ "verif/checks/c13"
 )
